@@ -109,7 +109,8 @@ def run(tier, seed, replay=None):
     c = rep.counters
     for name, minimum in {'quiescent_points_judged': 80, 'held_statuses_judged': 400, 'held_tips_judged': 150, 'header_notifications_seen': 300,
                           'notifications_issued': 500, 'step:reorg': 20, 'step:reorg_same_height': 10, 'step:forced_reorg': 15,
-                          'client:unsubscribe': 20, 'c20_joins_on_real_traces': 300, 'notifications_issued_while_index_below_their_height': 3, 'notif_handovers_checked_against_env_model': 1000}.items():
+                          'client:unsubscribe': 20, 'c20_joins_on_real_traces': 300, 'notifications_issued_while_index_below_their_height': 3, 'family:subscribe-race': 12, 'family:same-height-forced': 6,
+                          'children_paying_a_script_their_parent_does_not_touch': 10, 'notif_handovers_checked_against_env_model': 1000}.items():
         rep.floor(name, c[name], minimum)
     if c['notif_handover_outside_env_model']:
         rep.inconc(f'{c["notif_handover_outside_env_model"]} real hand-over(s) fall outside the environment model used by C20 (model too narrow)')
